@@ -58,6 +58,11 @@ class AnchorLost(Exception):
     site count fell below the hand-counted floor.  The check cannot decide."""
 
 
+class GuardMissing(Exception):
+    """A guard call/branch the rule needs is absent from an existing function:
+    reported as the violation itself."""
+
+
 class Unrecognised(Exception):
     """A guard form outside the closed list of recognised idioms."""
 
